@@ -281,6 +281,9 @@ func runC19(c *eng.Ctx) {
 		}
 		nx.Only("R3", eng.AssignVar("oMaxTime"), "starts at the current chunk's max time and grows to the largest max time merged", func(l eng.Loc) bool {
 			t := nodeText(l.Node)
+			if t == "oMaxTime = max(oMaxTime, next.MaxTime)" || t == "oMaxTime = max(next.MaxTime, oMaxTime)" {
+				return true
+			}
 			if t == "oMaxTime = next.MaxTime" {
 				for _, g := range nx.GuardsOf(l) {
 					if g == "-1*next.MaxTime +1*oMaxTime < 0" {
@@ -291,7 +294,7 @@ func runC19(c *eng.Ctx) {
 			}
 			return strings.Contains(t, "oMaxTime    = c.curr.MaxTime") || strings.Contains(t, "oMaxTime = c.curr.MaxTime")
 		})
-		nx.Has("R3", stmt("oMaxTime = next.MaxTime"), 1)
+		nx.Has("R3", eng.Or(stmt("oMaxTime = next.MaxTime"), stmt("oMaxTime = max(oMaxTime, next.MaxTime)"), stmt("oMaxTime = max(next.MaxTime, oMaxTime)")), 1)
 		collect := stmtPrefix("overlapping = append(overlapping, newChunkToSeriesDecoder(labels.EmptyLabels(), next))")
 		nx.Has("R3", collect, 1)
 		merge := eng.Node("c.mergeFunc(append(overlapping, …c.curr)...)", func(g *eng.Graph, n ast.Node) bool {
